@@ -453,4 +453,215 @@ theorem lrun_inv (lenv : LEnv) (ops : List LOp) :
     CacheInv (lrun lenv ops) ∧ StateInv lenv (lrun lenv ops) :=
   lfold_inv ops cacheInv_init (stateInv_init lenv)
 
+/-! ### classes -/
+
+/-- what `ClsOK` says about one token met by the reader of database `db` -/
+def TokCls (lenv : LEnv) (db : Db) : Tok → Prop
+  | .tup o c => ∀ b r', o.norm = .ok b → lookup (db, b) lenv.store = some r' → r'.cls = c
+  | .multi d o c => ∀ b r', o.norm = .ok b → lookup (d, b) lenv.store = some r' → r'.cls = c
+  | _ => True
+
+theorem tokCls_of_clsOK {lenv : LEnv} (hc : ClsOK lenv.store) {k : Db × Oid} {r : Record}
+    (hr : lookup k lenv.store = some r) {tk : Tok} (hm : tk ∈ r.state.leaves) : TokCls lenv k.1 tk := by
+  obtain ⟨h1, h2⟩ := hc k r hr tk hm
+  cases tk with
+  | tup o c => exact fun b r' hb hl => h1 o c b r' rfl hb hl
+  | multi d o c => exact fun b r' hb hl => h2 d o c b r' rfl hb hl
+  | oid o => trivial
+  | weak o d => trivial
+  | multiOid d o => trivial
+  | legacyWeak o => trivial
+
+theorem newGhost_cls {lenv : LEnv} {ls : LState} {db : Db} {oid : Oid} {c : Cls} (hi : CacheInv ls)
+    (hc : ClsInv lenv ls) (hm : lookup (db, oid) ls.cache = none)
+    (hcls : ∀ r, lookup (db, oid) lenv.store = some r → r.cls = c) :
+    ClsInv lenv (newGhost ls db oid c lenv).2 := by
+  obtain ⟨_, hk, _, _, hnew⟩ := newGhost_spec (c := c) (lenv := lenv) hi hm
+  intro h x r e hr
+  cases hb : ls.heap[h]? with
+  | some y =>
+    have := hk h y hb
+    rw [e] at this; cases this
+    exact hc h x r hb hr
+  | none =>
+    have := hnew h x e hb
+    subst this
+    have := hcls r hr
+    exact ⟨this.symm, by simp [ghostOf, this]⟩
+
+theorem connGet_cls {lenv : LEnv} {ls ls' : LState} {db : Db} {oid : Oid} {h : Nat}
+    (hi : CacheInv ls) (hc : ClsInv lenv ls) (hg : connGet lenv ls db oid = .ok (h, ls')) :
+    ClsInv lenv ls' := by
+  unfold connGet at hg
+  cases hl : lookup (db, oid) ls.cache with
+  | some h' =>
+    simp only [hl, Except.ok.injEq, Prod.mk.injEq] at hg
+    rw [← hg.2]; exact hc
+  | none =>
+    simp only [hl] at hg
+    cases hs : lookup (db, oid) lenv.store with
+    | none => simp [hs] at hg
+    | some r =>
+      simp only [hs, Except.ok.injEq] at hg
+      have := newGhost_cls (c := r.cls) hi hc hl (fun r' hr' => by rw [hs] at hr'; cases hr'; rfl)
+      rw [hg] at this
+      exact this
+
+theorem loadPersistent_cls {lenv : LEnv} {ls ls' : LState} {db : Db} {o : OidTok} {c : Cls} {h : Nat}
+    (hi : CacheInv ls) (hc : ClsInv lenv ls)
+    (hcls : ∀ b r', o.norm = .ok b → lookup (db, b) lenv.store = some r' → r'.cls = c)
+    (hg : loadPersistent lenv ls db o c = .ok (h, ls')) : ClsInv lenv ls' := by
+  unfold loadPersistent at hg
+  cases hn : o.norm with
+  | error e => simp [hn] at hg
+  | ok b =>
+    simp only [hn] at hg
+    cases hl : lookup (db, b) ls.cache with
+    | some h' =>
+      simp only [hl, Except.ok.injEq, Prod.mk.injEq] at hg
+      rw [← hg.2]; exact hc
+    | none =>
+      simp only [hl, Except.ok.injEq] at hg
+      have := newGhost_cls (c := c) hi hc hl (fun r' hr' => hcls b r' hn hr')
+      rw [hg] at this
+      exact this
+
+theorem persistentLoad_cls {lenv : LEnv} {db : Db} {ls ls' : LState} {tk : Tok} {lf : LLeaf}
+    (hi : CacheInv ls) (hc : ClsInv lenv ls) (ht : TokCls lenv db tk)
+    (hp : persistentLoad lenv db ls tk = .ok (lf, ls')) : ClsInv lenv ls' := by
+  cases tk with
+  | tup o c =>
+    simp only [persistentLoad] at hp
+    cases hl : loadPersistent lenv ls db o c with
+    | error e => simp [hl] at hp
+    | ok q =>
+      obtain ⟨h, ls1⟩ := q
+      simp only [hl, Except.ok.injEq, Prod.mk.injEq] at hp
+      rw [← hp.2]
+      exact loadPersistent_cls hi hc ht hl
+  | oid o =>
+    simp only [persistentLoad, loadOid] at hp
+    cases hn : o.norm with
+    | error e => simp [hn] at hp
+    | ok b =>
+      simp only [hn] at hp
+      cases hl : connGet lenv ls db b with
+      | error e => simp [hl] at hp
+      | ok q =>
+        obtain ⟨h, ls1⟩ := q
+        simp only [hl, Except.ok.injEq, Prod.mk.injEq] at hp
+        rw [← hp.2]
+        exact connGet_cls hi hc hl
+  | weak o d =>
+    simp only [persistentLoad] at hp
+    cases hn : o.norm with
+    | error e => simp [hn] at hp
+    | ok b =>
+      simp only [hn, Except.ok.injEq, Prod.mk.injEq] at hp
+      rw [← hp.2]; exact hc
+  | legacyWeak o =>
+    simp only [persistentLoad] at hp
+    cases hn : o.norm with
+    | error e => simp [hn] at hp
+    | ok b =>
+      simp only [hn, Except.ok.injEq, Prod.mk.injEq] at hp
+      rw [← hp.2]; exact hc
+  | multi d o c =>
+    simp only [persistentLoad] at hp
+    split at hp
+    · simp at hp
+    · cases hl : loadPersistent lenv ls d o c with
+      | error e => simp [hl] at hp
+      | ok q =>
+        obtain ⟨h, ls1⟩ := q
+        simp only [hl, Except.ok.injEq, Prod.mk.injEq] at hp
+        rw [← hp.2]
+        exact loadPersistent_cls hi hc ht hl
+  | multiOid d o =>
+    simp only [persistentLoad, loadOid] at hp
+    split at hp
+    · simp at hp
+    · cases hn : o.norm with
+      | error e => simp [hn] at hp
+      | ok b =>
+        simp only [hn] at hp
+        cases hl : connGet lenv ls d b with
+        | error e => simp [hl] at hp
+        | ok q =>
+          obtain ⟨h, ls1⟩ := q
+          simp only [hl, Except.ok.injEq, Prod.mk.injEq] at hp
+          rw [← hp.2]
+          exact connGet_cls hi hc hl
+
+theorem setState_clsInv {lenv : LEnv} {ls : LState} (hc : ClsInv lenv ls) (h : Nat) (t : Tree LLeaf) :
+    ClsInv lenv (setState ls h t) := by
+  intro j x r e hr
+  rw [setState_get] at e
+  cases hb : ls.heap[j]? with
+  | none => rw [hb] at e; simp at e
+  | some y =>
+    rw [hb] at e
+    simp only [Option.map_some, Option.some.injEq] at e
+    by_cases hj : h = j
+    · simp only [hj, if_true] at e
+      subst e
+      exact hc j y r hb hr
+    · simp only [hj, if_false] at e
+      subst e
+      exact hc j y r hb hr
+
+theorem connSetstate_cls {lenv : LEnv} {ls ls' : LState} {h : Nat} (hok : ClsOK lenv.store)
+    (hi : CacheInv ls) (hc : ClsInv lenv ls) (hs : connSetstate lenv ls h = .ok ls') :
+    ClsInv lenv ls' := by
+  unfold connSetstate at hs
+  cases hx : ls.heap[h]? with
+  | none => simp [hx] at hs
+  | some x =>
+    simp only [hx] at hs
+    cases hr : lookup (x.db, x.oid) lenv.store with
+    | none => simp [hr] at hs
+    | some r =>
+      simp only [hr] at hs
+      cases ht : traverse (persistentLoad lenv x.db) ls r.state with
+      | error e => simp [ht] at hs
+      | ok q =>
+        obtain ⟨t, ls1⟩ := q
+        simp only [ht, Except.ok.injEq] at hs
+        subst hs
+        have hm := traverse_leaves _ _ _ _ _ ht
+        have := mapS_rel_mem (f := persistentLoad lenv x.db)
+          (fun s => CacheInv s ∧ ClsInv lenv s) (fun _ _ => True) (fun _ _ _ => True)
+          (TokCls lenv x.db) (fun _ => trivial) (fun _ _ _ _ _ => trivial)
+          (fun _ _ _ _ _ _ => trivial)
+          (fun s tk lf s' hq ⟨i, c⟩ hp =>
+            ⟨⟨(persistentLoad_spec i hp).1, persistentLoad_cls i c hq hp⟩, trivial, trivial⟩)
+          (fun tk htk => tokCls_of_clsOK hok (k := (x.db, x.oid)) hr htk) ⟨hi, hc⟩ hm
+        exact setState_clsInv this.1.2 h t
+
+theorem lfold_cls {lenv : LEnv} (hok : ClsOK lenv.store) (ops : List LOp) {ls : LState}
+    (hi : CacheInv ls) (hs : StateInv lenv ls) (hc : ClsInv lenv ls) :
+    ClsInv lenv (ops.foldl (lstep lenv) ls) := by
+  induction ops generalizing ls with
+  | nil => exact hc
+  | cons op ops ih =>
+    obtain ⟨a, b, _⟩ := lstep_inv (op := op) hi hs
+    refine ih a b ?_
+    cases op with
+    | get db oid =>
+      simp only [lstep]
+      cases hg : connGet lenv ls db oid with
+      | error e => exact hc
+      | ok q => obtain ⟨h, ls'⟩ := q; exact connGet_cls hi hc hg
+    | activate h =>
+      simp only [lstep]
+      cases hg : connSetstate lenv ls h with
+      | error e => exact hc
+      | ok ls' => exact connSetstate_cls hok hi hc hg
+
+/-- in a database whose references cache the right classes, every in-memory object has the class
+    of its record (and is a placeholder iff that class is missing) -/
+theorem lrun_cls (lenv : LEnv) (hok : ClsOK lenv.store) (ops : List LOp) :
+    ClsInv lenv (lrun lenv ops) :=
+  lfold_cls hok ops cacheInv_init (stateInv_init lenv) (clsInv_init lenv)
+
 end Proofs.Refs
